@@ -96,6 +96,25 @@ func (*c02) Corpus() []any {
 		eng.Step{Edit: &eng.Edit{Del: "ConfigMap/a"}},
 		op(c02Op("upgrade", 2, eng.Flags{}, cm("a", "d:k", "v1"), cm("b", "d:k", "v2"))),
 		op(c02Op("rollback", 0, eng.Flags{})), op(c02Op("uninstall", 0, eng.Flags{KeepHistory: true})))
+	// install --replace while a revision is still deployed (K1 of C01, reached here without any fault: the
+	// upgrade fails because its hook object, kept by delete policy hook-failed, already exists): the
+	// resources of the deployed revision that the new manifest drops are never deleted
+	hk := func(ev string) []eng.Hook {
+		return []eng.Hook{{Res: cm("hk", "d:h", "0"), Events: []string{ev}, Policies: []string{"hook-failed"}}}
+	}
+	in1 := c02Op("install", 1, eng.Flags{}, cm("a", "d:k", "v1"), cm("b", "d:k", "v1"))
+	in1.Hooks = hk("pre-install")
+	up2 := c02Op("upgrade", 2, eng.Flags{}, cm("a", "d:k", "v2"), cm("b", "d:k", "v2"))
+	up2.Hooks = hk("pre-upgrade")
+	hist(op(in1), op(up2), op(c02Op("install", 3, eng.Flags{Replace: true}, cm("a", "d:k", "v3"))))
+	// rollback after an upgrade that failed before touching the cluster, to a revision other than the deployed one:
+	// rollback diffs against the failed (latest) revision, so what only the deployed revision has stays (K6-C02)
+	sa := eng.Res{Kind: "ServiceAccount", Name: "sa", Fields: map[string]string{"l:tier": "web"}}
+	up2b := c02Op("upgrade", 2, eng.Flags{}, cm("a", "d:k", "v2"), sa)
+	up2b.Hooks = []eng.Hook{{Res: cm("hk", "d:h", "0"), Events: []string{"pre-upgrade"}}}
+	up3b := c02Op("upgrade", 3, eng.Flags{}, cm("a", "d:k", "v3"))
+	up3b.Hooks = []eng.Hook{{Res: cm("hk", "d:h", "0"), Events: []string{"pre-upgrade"}, Policies: []string{"hook-succeeded"}}}
+	hist(op(c02Op("install", 1, eng.Flags{}, cm("a", "d:k", "v1"))), op(up2b), op(up3b), op(c02Op("rollback", 0, eng.Flags{Version: 1})))
 	out = append(out, kubeCorpus()...)
 	return out
 }
